@@ -21,7 +21,7 @@ RULE = ("product enumeration over (symmetry, dtype, operand descriptors [signatu
         "not a contract rejection; distinct by hash of the full case descriptor")
 ASSUMPTIONS = ["NumPy dense linear algebra is the reference", "integer block data in [-3,3] (Gaussian integers for "
                "complex) make exact operations bitwise comparable", "NumPy backend only"]
-BUDGET = {'quick': 170, 'thorough': 1500}
+BUDGET = {'quick': 260, 'thorough': 1500}
 
 DTYPES = ['float64', 'complex128']
 ELEMENTWISE = {'neg', 'abs', 'real', 'imag', 'sqrt_abs', 'pow', 'exp', 'rsqrt', 'reciprocal', 'mul', 'rmul', 'truediv',
@@ -50,6 +50,16 @@ def pool(sym, tier, ranks, lazy_level=0, with_mat=True):
                     yield {'s': list(sig), 'm': [m, m], 'n': 0, 'drop': drop, 'diag': True, 'var': var}
 
 
+def pool4_reduced(sym):
+    """quick tier: a small complete family of rank-4 tensors (two free legs remain after a trace)"""
+    ms = GL.msize(sym, 2)
+    n1 = min(1, len(GL.CHARGES[sym]) - 1)
+    for sig in ((1, -1, 1, -1), (1, 1, -1, -1), (-1, 1, 1, -1)):
+        for m in ((0, 0, 0, 0), tuple(i % ms for i in range(4)), (0, (1 % ms), (1 % ms), 0)):
+            for var in GT.variants(4, 1, with_mat=True):
+                yield {'s': list(sig), 'm': list(m), 'n': n1, 'drop': None, 'var': var}
+
+
 def groups(tier, seed):
     gs = []
     for sym in GC.SYMS:
@@ -59,6 +69,8 @@ def groups(tier, seed):
                 nparts = {0: 1, 1: 1, 2: 1, 3: 4, 4: 16}[r]
                 for part in range(nparts):
                     gs.append(dict(base, sec='unary', rank=r, part=part, parts=nparts, level=1 if r <= 3 else 2))
+            if tier == 'quick':
+                gs.append(dict(base, sec='unary', rank=4, part=0, parts=1, level=1, reduced=True))
             gs.extend(B.groups(base, tier))
             gs.extend(N.groups(base, tier))
     return gs
@@ -80,7 +92,8 @@ def run_unary(g, cfg, acc):
     cplx = g['dtype'].startswith('complex')
     k = -1
     lazy_level = 0 if tier == 'quick' else 1
-    for td in pool(sym, tier, [g['rank']], lazy_level):
+    src = pool(sym, tier, [g['rank']], lazy_level) if not g.get('reduced') else pool4_reduced(sym)
+    for td in src:
         if (g['rank'] != 2) and td.get('diag'):
             continue
         if tier == 'quick' and g['rank'] >= 3 and td['n'] == 0 and td['var'][0] != 'fresh':
